@@ -385,7 +385,8 @@ unsafe fn dispose_general_node<T: RcObject>(
     vp!(CASC_STATE);
     let state = State::from_raw(rc.state.load(Ordering::SeqCst));
     let node_epoch = state.epoch();
-    debug_assert_eq!(state.strong(), 0);
+    // A non-root node may have been incremented again after the decrement that sent us here.
+    debug_assert!(depth > 0 || state.strong() == 0);
 
     let curr_epoch = global_epoch();
     let modu: Modular<EPOCH_WIDTH> = Modular::new(curr_epoch as isize + 1);
@@ -395,6 +396,29 @@ unsafe fn dispose_general_node<T: RcObject>(
     // old enough, `modu.le` may return false.
     if depth == 0 || modu.le(node_epoch as _, curr_epoch as isize - 3) {
         // The current node is immediately reclaimable.
+        if depth > 0 {
+            // A root has been marked as destructed by `try_destruct`, but this node has just
+            // lost its last reference by our own decrement. Mark it, atomically with observing
+            // a zero count, so that upgrades fail from now on. If someone has incremented the
+            // count in the meantime, it did so believing that a `try_destruct` is pending:
+            // play that role and give the node up.
+            let mut old = state;
+            loop {
+                if old.strong() > 0 {
+                    RcInner::decrement_strong(rc, 1, Some(guard));
+                    return;
+                }
+                match rc.state.compare_exchange(
+                    old.as_raw(),
+                    old.with_destructed(true).as_raw(),
+                    Ordering::SeqCst,
+                    Ordering::SeqCst,
+                ) {
+                    Ok(_) => break,
+                    Err(curr) => old = State::from_raw(curr),
+                }
+            }
+        }
         vev!(DISPOSE, ptr, depth);
         rc.data_mut().pop_edges(&mut outgoings);
         unsafe {
